@@ -917,6 +917,10 @@ func removeJobFromWaitList(waitList []*PipelineJob, jobToRemove *PipelineJob) []
 func (r *PipelineRunner) determineIfJobShouldBeRemoved(index int, job *PipelineJob) (bool, string) {
 	pipelineDef, pipelineDefExists := r.defs.Pipelines[job.Pipeline]
 	if !pipelineDefExists {
+		if job.isRunning() {
+			// The tasks of the job are still executing: keep it visible (and cancelable) until it is finished
+			return false, "Keeping running job of removed pipeline"
+		}
 		return true, "Pipeline definition not found"
 	}
 
